@@ -461,7 +461,10 @@ _COMBINATORS = {
     _RES + "and_then": {"Ok": ("call", 1, True), "Err": ("wrap", "Err", ("payload",))},
     _RES + "or_else": {"Ok": ("wrap", "Ok", ("payload",)), "Err": ("call", 1, True)},
 }
-_VARIANTS = {"core::option::Option": [("None", "0", None), ("Some", "1", 0)], "core::result::Result": [("Ok", "0", 0), ("Err", "1", 1)]}
+_COMBINATORS["core::bool::<impl bool>::then"] = {"false": ("unit", "None"), "true": ("wrap", "Some", ("call", 1, False))}
+_COMBINATORS["core::bool::<impl bool>::then_some"] = {"false": ("unit", "None"), "true": ("wrap", "Some", ("arg", 1))}
+_VARIANTS = {"core::option::Option": [("None", "0", None), ("Some", "1", 0)], "core::result::Result": [("Ok", "0", 0), ("Err", "1", 1)],
+             "bool": [("false", "0", None), ("true", "1", None)]}
 _WRAP = {"Some": ("core::option::Option", 1, 0), "None": ("core::option::Option", 0, None),
          "Ok": ("core::result::Result", 0, 0), "Err": ("core::result::Result", 1, 1)}
 
@@ -512,8 +515,9 @@ def _expand_combinators(facts, w, stack, budget):
             continue
         rty_i = w.locals[rpl["l"]]["ty"]
         rty = types[rty_i]
-        vs = _VARIANTS.get(rty.get("def"))
-        if vs is None or rty.get("k") != "adt":
+        is_bool = rty.get("s") == "bool"
+        vs = _VARIANTS.get("bool" if is_bool else rty.get("def"))
+        if vs is None or (rty.get("k") != "adt" and not is_bool):
             continue
         dty = types[w.locals[t["dest"]["l"]]["ty"]]
         fns = {}          # arg index -> ("closure", body) | ("ctor", info)
@@ -614,9 +618,14 @@ def _expand_combinators(facts, w, stack, budget):
                     "l": rpl["l"], "p": [{"downcast": int(val), "v": vn}, {"f": 0, "n": "0", "adt": rty["def"], "t": pty}]}}}, "span": span})
                 payload_op = {"move": {"l": pv, "p": []}}
             emit(idx, act, dest, dest_ty, payload_op)
+        first, second = vs[0], vs[1]
+        if is_bool:
+            w.blocks[bb]["term"] = {"k": "switch", "discr": {"copy": {"l": rpl["l"], "p": []}}, "targets": [["0", arms["false"]]],
+                                    "otherwise": arms["true"], "span": span, "inl": "combinator:" + fn["name"]}
+            changed = True
+            continue
         w.blocks[bb]["stmts"] = w.blocks[bb]["stmts"] + [{"k": "assign", "lhs": {"l": disc, "p": []}, "rv": {
             "k": "discr", "place": {"l": rpl["l"], "p": []}, "ty": rty_i, "variants": [[vn, val] for (vn, val, _p) in vs]}, "span": span}]
-        first, second = vs[0], vs[1]
         w.blocks[bb]["term"] = {"k": "switch", "discr": {"move": {"l": disc, "p": []}}, "targets": [[first[1], arms[first[0]]]],
                                 "otherwise": arms[second[0]], "span": span, "inl": "combinator:" + fn["name"]}
         changed = True
@@ -711,9 +720,19 @@ def _expand_async(facts, w, stack, budget, policy="full"):
             if isinstance(outer_drop, int):
                 nb["term"] = _goto(outer_drop, span)
         fixed = {0: ret_local, 1: a.pinned_local}
+        # the awaitee local is declared with the helper's opaque `impl Future` type; inside the inlined body it is the
+        # coroutine itself: give it that type, so that what dropping it (its captured variables) can do is judged exactly
+        if w.body.types[K.locals[1]["ty"]].get("k") in ("coroutine", "closure"):
+            w.locals[a.pinned_local] = dict(w.locals[a.pinned_local], ty=K.locals[1]["ty"])
         if ctx_local is not None:
             fixed[2] = ctx_local
         base, lm = w.append_callee(K, fixed, unwind_to, on_return, on_coroutine_drop=on_cdrop)
+        # the helper's `drop(_1)` at its return drops what is left of its environment: the captured variables (every local
+        # of the body is gone by then) — marked, so that T-PAIR judges it by the captured types and not as "some future"
+        for off in range(len(K.blocks)):
+            t_ = w.blocks[base + off]["term"]
+            if t_["k"] == "drop" and t_["place"]["l"] == a.pinned_local and not t_["place"]["p"] and K.blocks[off]["term"]["place"]["l"] == 1:
+                t_["env_drop"] = K.def_
         # yields of the callee whose drop edge left the callee continue on the caller's drop path: done by on_cdrop
         # enter the callee instead of the poll loop: from the block that moved the future into the awaitee local
         # (the successor of into_future), i.e. redirect into_future's target block's goto
